@@ -132,10 +132,10 @@ def run_cases(ctx, cases, oracle, nontrivial=None):
             ctx.disagreement('transition: implementation and model differ (result, exception class or draw log)', d)
 
 
-def impl_tree(names, cs, act, max_leaves=20000):
+def impl_tree(names, cs, act, max_leaves=20000, share=False):
     """every random outcome of the real code: list of ('ok', state) / ('err', name), in DFS order"""
     outs = []
-    for script, r, log in enumerate_outcomes(lambda rng: impl.run_transition(names, cs, act, True, script=rng.script), max_leaves):
+    for script, r, log in enumerate_outcomes(lambda rng: impl.run_transition(names, cs, act, True, script=rng.script, share=share), max_leaves):
         outs.append((r[0], r[1], r[2]) if isinstance(r, tuple) else ('err', type(r).__name__, []))
     return outs
 
@@ -143,8 +143,8 @@ def impl_tree(names, cs, act, max_leaves=20000):
 def run_trees(ctx, cases, tree_oracle=None):
     """full outcome trees: the SET of outcomes of the real code (ScriptedRng DFS) must equal the model's `leaves`"""
     reqs, metas = [], []
-    for names, cs, act in cases:
-        outs = impl_tree(names, cs, act)
+    for k, (names, cs, act) in enumerate(cases):
+        outs = impl_tree(names, cs, act, share=(k % 2 == 1))     # every other tree: equal stateless objects are shared instances
         ctx.trees += 1
         ctx.tree_leaves += len(outs)
         ctx.count('outcome tree size', len(outs))
